@@ -18,6 +18,8 @@ RULE = ("a group = one generated valid operation over v2/pkg/grpctest's schema (
         "case line and non-trivial when some reformulation differs from the base operation in more than field "
         "order, or the base selection has depth >= 3.")
 
+# Repaired (no mapping any more, a regression is a VIOLATION): repeated-enum-argument-panic,
+# call-selection-alias-duplicate-dropped, nested-resolver-null-parent, concurrent-load-validfields-race.
 # Known defects: every key needs its structural precondition to be present in the failing run
 # (feat = entity batch kind, tags = position contexts of the field-resolver / @requires fields of the
 # run: a abstract type, n nullable-or-nested list, o nullable object, l plain list, r below a
@@ -31,14 +33,10 @@ def classify(case, detail):
     def has(ch, ctxs=res_ctx):
         return any(ch in c for c in ctxs)
 
-    if detail.startswith("total/load-panic") and "assigning invalid type" in detail:
-        return "repeated-enum-argument-panic"
     if feat == "multi" and tags and (
             "is required but has no value" in detail or "why=extra-key" in detail or "why=missing-key" in detail
             or "length of values doesn't match" in detail or "why=null-at-non-null" in detail):
         return "entity-batch-mixed-types"
-    if "expected array or object, got null" in detail and (has("r") or has("o") or has("n")):
-        return "nested-resolver-null-parent"
     missing = re.search(r"why=missing-key:(\S+)", detail)
     if missing:
         keys = missing.group(1).split(",")
@@ -49,8 +47,6 @@ def classify(case, detail):
                 return "resolver-under-list-wrapper"
             if any("a" in c for c in ctxs):
                 return "resolver-in-abstract-fragment"
-        if all(len(k) >= 3 and k[1] == "plain" and ("r" in k[2] or "q" in k[2]) for k in kinds):
-            return "call-selection-alias-duplicate-dropped"
     if "length of values doesn't match" in detail or "not found in object" in detail:
         if has("n"):
             return "resolver-under-list-wrapper"
@@ -160,8 +156,7 @@ def concurrency_probe(chk, exe):
     if int(seq.group(1)) > 0:
         chk.add_violation("spec:shape/sequential-answer-inconsistent", seq.group(0)[:600], case={"cmd": cmd})
     if int(con.group(1)) > 0:
-        chk.add_violation("spec:concurrent/answer-missing-fragment-fields", con.group(0)[:600], case={"cmd": cmd},
-                          key="concurrent-load-validfields-race")
+        chk.add_violation("spec:concurrent/answer-missing-fragment-fields", con.group(0)[:600], case={"cmd": cmd})
 
 
 def replay(chk, path):
